@@ -3,6 +3,7 @@ package props
 import (
 	"bytes"
 	"context"
+	"encoding"
 	stdjson "encoding/json"
 	"fmt"
 	"math/rand"
@@ -65,6 +66,16 @@ type c12Target struct {
 	QN gojson.Number `json:"qn,string"`
 	QI int64         `json:"qi,string"`
 	QP *string       `json:"qp,string"`
+	// interface-typed members holding retaining unmarshalers (set before decoding): the decoder
+	// finds the unmarshaler at run time, on a path of its own
+	IJ  gojson.Unmarshaler
+	IT  encoding.TextUnmarshaler
+	IA  any
+	IJs [2]gojson.Unmarshaler
+}
+
+func newC12Target() *c12Target {
+	return &c12Target{IJ: &c12RetainJSON{}, IT: &c12RetainText{}, IA: &c12RetainJSON{}, IJs: [2]gojson.Unmarshaler{&c12RetainJSON{}, &c12RetainJSON{}}}
 }
 
 func inRange(p, base uintptr, capacity int) bool {
@@ -263,6 +274,7 @@ func c12Doc(r *rand.Rand) []byte {
 		`"In":{"S":` + str() + `,"R":[` + raw() + `,` + raw() + `]}`,
 		fmt.Sprintf(`"LL":[[%d,%d,3,4],[5,6,7,8],[]]`, r.Intn(100), r.Intn(100)), `"LS":[[` + str() + `,` + str() + `],[` + str() + `]]`, fmt.Sprintf(`"LM":[{"k":[%d,2,3]},{"k":[4,5],"l":[6]}]`, r.Intn(100)),
 		`"qs":` + quote(str()), `"qn":"` + string(gen.NumLit(r)) + `"`, `"qi":"` + fmt.Sprint(r.Int63()-r.Int63()) + `"`, `"qp":` + quote(str()),
+		`"IJ":` + raw(), `"IT":` + str(), `"IA":` + raw(), `"IJs":[` + raw() + `,` + raw() + `]`,
 	}
 	r.Shuffle(len(parts), func(i, j int) { parts[i], parts[j] = parts[j], parts[i] })
 	n := 3 + r.Intn(len(parts)-2)
@@ -285,7 +297,7 @@ func c12DecodeCase(c *rt.Ctx, sub int, r *rand.Rand, entry string) {
 			var v map[string]gojson.RawMessage
 			return reflect.ValueOf(&v)
 		}
-		return reflect.ValueOf(&c12Target{})
+		return reflect.ValueOf(newC12Target())
 	}
 	dst := mk()
 	dsts = append(dsts, dst)
@@ -644,7 +656,7 @@ func c12StreamCase(c *rt.Ctx, sub int, r *rand.Rand) {
 	var dsts []*c12Target
 	var snaps []string
 	for i := 0; i < n; i++ {
-		d := &c12Target{}
+		d := newC12Target()
 		var err error
 		if pan, _, _ := rt.Guard(func() { err = dec.Decode(d) }); pan || err != nil {
 			c.Obs("stream_decode_errors", 1)
